@@ -154,9 +154,9 @@ theorem BuiltFor_PlaceholderStr : ∀ (b : B) (dt : DataType) (nl : Bool), Built
   | .dictionary _ idx vals _, dt, nl, hb, hc => by
     simp only [BuiltFor] at hb
     obtain ⟨k, vdt, rfl, hk, hbi, hbv⟩ := hb
-    simp only [covered, Bool.and_eq_true] at hc
+    simp only [covered, hk, Bool.not_true, Bool.false_or] at hc
     simp only [PlaceholderStr]
-    have := strDT_builtFor_str vals vdt false hc.2 hbv
+    have := strDT_builtFor_str vals vdt false hc hbv
     exact ⟨fun _ => this.1, intLeaf_PlaceholderStr idx (isIntLeaf_of_builtFor idx k nl hk hbi), this.2⟩
   | .union _ fs _ _ _, dt, nl, hb, hc => by
     simp only [BuiltFor] at hb
@@ -346,7 +346,7 @@ theorem placeholder_binary_fails :
       rw [this] at hj
       cases hj
       exact ⟨by omega, Or.inr ⟨rfl, rfl⟩⟩
-    · intro h; simp [B.isUtf8B, isUtf8Ty] at h
+    · exact ⟨fun h => by simp [B.isUtf8B, isUtf8Ty] at h, fun _ => rfl⟩
     · intro r hr; simp [decH, dec, maskNull, pairs] at hr
   · simp [FinB, isIntLeaf]
   · simp [PlaceholderOK, placeholderVals]
